@@ -1616,15 +1616,888 @@ Section Full.
   Definition tgood (bs ds : list name) (W : stmt) (Tst : list name) (c1 : cx) (out : list stmt) (c' : cx) : Prop :=
     forall D, cx_wf2 c1 D -> incl' Tst D -> NoDup bs -> disj bs D ->
       stat bs ds Tst c1 out c' false D /\
-      forall S et tr, incl' Tst S -> incl' S D -> (forall x, In x S -> assoc x (cx_v c1) = None) ->
-                      Rel2 w c1 S [] et et -> dynT (exec_o W et tr) out c' S bs ds et tr.
+      forall et tr, Rel2 w c1 Tst [] et et -> dynT (exec_o W et tr) out c' Tst bs ds et tr.
 
   Lemma good_tgood bs ds W Tst c1 out c' : good bs ds (exec_o W) Tst c1 out c' false -> tgood bs ds W Tst c1 out c'.
   Proof.
     intros Hg D Hwf HTD Hnd Hdj. destruct (Hg D Hwf HTD Hnd Hdj) as [Hst Hd]. split; [exact Hst|].
-    intros S et tr Hi1 Hi2 Hne HR. specialize (Hd S [] et et tr Hi1 Hi2 (incl'_nil _) HR).
+    intros et tr HR. specialize (Hd Tst [] et et tr (incl'_refl _) HTD (incl'_nil _) HR).
     destruct (exec_o W et tr); cbn [dyn dynT] in *; auto.
     destruct Hd as (_ & et2 & S' & J' & Ex & HR' & Lo & Up & LJ & UJ).
     exists et2, (J' ++ S'). split; [assumption|]. split; [eapply R2_shrink; eauto|]. inc2.
   Qed.
+
+  Lemma R2_eo c S J eo eo' et : Rel2 w c S J eo et -> agree w S eo eo' -> Rel2 w c S J eo' et.
+  Proof. intros (RV & RI & RB) Ha. split; [|split]; auto. intros x Hx. rewrite <- (Ha x Hx). auto. Qed.
+
+  Lemma tscope_self c T : (forall x, In x T -> assoc x (cx_v c) = None) ->
+    (forall z op y k, In z T -> assoc z (cx_b c) = Some (op, y, k) -> In y T) -> tscope c T T.
+  Proof. intros H1 H2. split; [|split]; auto. intros x y Hx. cbn. rewrite (H1 x Hx). intros [= <-]. exact Hx. Qed.
+  Lemma tscope_super c T T' : tscope c T T' -> (forall x, In x T -> assoc x (cx_v c) = None) -> incl' T T'.
+  Proof. intros (H1 & _) Hn x Hx. apply (H1 x x Hx). cbn. now rewrite (Hn x Hx). Qed.
+
+  (* the loop is emitted as it is *)
+  Lemma tl_keep lvsX body bc c1 Tst :
+    scoped Tst (SWhile lvsX body bc) = true -> (forall x, In x Tst -> assoc x (cx_v c1) = None) ->
+    tgood (map t_name lvsX ++ binders_l body ++ opt_names bc) (opt_names bc) (SWhile lvsX body bc) Tst c1
+          [SWhile lvsX body bc] c1.
+  Proof.
+    intros Hsc HTn D Hwf HTD Hnd Hdj.
+    set (W := SWhile lvsX body bc) in *. set (bs := map t_name lvsX ++ binders_l body ++ opt_names bc) in *.
+    assert (Hbs : binders_l [W] = bs) by (cbn [binders_l]; apply app_nil_r).
+    assert (Hbc : forall b, bc = Some b -> assoc b (cx_v c1) = None /\ assoc b (cx_b c1) = None /\ ~ In b D).
+    { intros b ->. assert (Hn : ~ In b D) by (intros Hd; apply (Hdj b); [unfold bs; cbn; rewrite !in_app_iff; cbn; auto | exact Hd]).
+      split; [eapply cx_wf_notin_v; eauto; apply Hwf|]. split; [eapply cx_wf_notin_b; eauto; apply Hwf | exact Hn]. }
+    split.
+    - split; [eapply cx_wf2_mono; eauto; inc|]. split; [apply ext_refl|]. rewrite Hbs.
+      split; [apply incl'_refl|]. split; [assumption|]. intros T HT HTD'.
+      pose proof (tscope_super _ _ _ HT HTn) as Hsup.
+      split; [cbn [scoped_l]; rewrite (scoped_mono W Tst T Hsup Hsc); reflexivity|]. intros _.
+      change (defs_l [W]) with (opt_names bc). destruct bc as [b|]; cbn [opt_names app]; [|exact HT].
+      destruct (Hbc b eq_refl) as (A & B & _). apply tscope_keep; auto.
+    - intros et tr HR.
+      assert (Eb : exec_block_t [W] et tr = exec_o W et tr).
+      { rewrite exec_block_cons. destruct (exec_o W et tr); reflexivity. }
+      pose proof (frame_stmt Add w fuel W et tr) as Hfr.
+      destruct (exec_o W et tr) as [e1 t| | | | | |] eqn:E; cbn [dynT]; auto.
+      + exists e1, []. split; [exact Eb|]. split; [|apply incl'_nil]. cbn [frame_res] in Hfr.
+        assert (HR' : Rel2 w c1 Tst [] e1 e1).
+        { assert (Hl : forall x, In x (Tst ++ []) -> lookup x e1 = lookup x et).
+          { intros x Hx. rewrite app_nil_r in Hx. apply Hfr. intros Hb. apply (Hdj x Hb). auto. }
+          apply (R2_frame w c1 Tst [] et et e1 e1 HR); auto. intros x Hx. apply Hl. rewrite app_nil_r. exact Hx. }
+        destruct bc as [b|]; cbn [opt_names app]; [|exact HR'].
+        destruct (Hbc b eq_refl) as (A & B & _).
+        apply (R2_add_many w c1 Tst [] [b] e1 e1 HR'). intros x [<-|[]]. auto.
+      + unfold W in E. rewrite exec_SWhile in E. destruct (loop _ _ _ _ _); discriminate.
+  Qed.
+  (* the first run of the pass over the body of an optimised loop, with the loop variables bound to their
+     initial values *)
+  Lemma tl_first n lvsX body bc c1 Tst cA first cB bA fA D :
+    Qn n -> scoped Tst (SWhile lvsX body bc) = true ->
+    (forall x, In x Tst -> assoc x (cx_v c1) = None) ->
+    (forall z op y k, In z Tst -> assoc z (cx_b c1) = Some (op, y, k) -> In y Tst) ->
+    bind_inits lvsX c1 = Some cA -> ccp_stmts g n body cA = Some (first, cB, bA, fA) -> fst fA = false ->
+    cx_wf2 c1 D -> incl' Tst D -> NoDup (map t_name lvsX ++ binders_l body ++ opt_names bc) ->
+    disj (map t_name lvsX ++ binders_l body ++ opt_names bc) D ->
+    cx_wf2 cA (map t_name lvsX ++ D) /\ ext_outside (map t_name lvsX) c1 cA /\
+    tscope cA (map t_name lvsX ++ Tst) Tst /\
+    stat (binders_l body) (defs_l body) (map t_name lvsX ++ Tst) cA first cB bA (map t_name lvsX ++ D) /\
+    forall et tr, Rel2 w c1 Tst [] et et ->
+      Rel2 w cA (map t_name lvsX ++ Tst) [] (bind_e1 w lvsX et) et /\
+      dyn (exec_block_o body (bind_e1 w lvsX et) tr) first cB bA (map t_name lvsX ++ Tst) []
+          (binders_l body) (defs_l body) et tr.
+  Proof.
+    intros HQ Hsc HTn HTb Hbi Hccp HfA Hwf HTD Hnd Hdj. set (LX := map t_name lvsX) in *.
+    rewrite scoped_SWhile in Hsc. apply andb_prop in Hsc. destruct Hsc as [Hsc Hl2]. apply andb_prop in Hsc. destruct Hsc as [Hl1 Hsb].
+    fold LX in Hsb, Hl2. rewrite forallb_forall in Hl1.
+    assert (HndL : NoDup LX) by (eapply NoDup_app_l'; eauto).
+    assert (HndB : NoDup (binders_l body)) by (eapply NoDup_app_l', NoDup_app_r'; eauto).
+    assert (DLB : forall x, In x LX -> In x (binders_l body) -> False).
+    { intros x H1 H2. eapply (NoDup_app_disj' _ _ x Hnd); eauto. rewrite in_app_iff. auto. }
+    assert (DjL : forall x, In x LX -> ~ In x D) by (intros x Hx Hd; eapply Hdj; eauto; rewrite !in_app_iff; auto).
+    assert (DjB : forall x, In x (binders_l body) -> ~ In x D) by (intros x Hx Hd; eapply Hdj; eauto; rewrite !in_app_iff; auto).
+    assert (HiniT : forall t y, In t lvsX -> t_e1 t = EVar y -> In y Tst).
+    { intros t y Ht Ey. specialize (Hl1 t Ht). rewrite Ey in Hl1. now apply in_scope_var in Hl1. }
+    assert (Hinifresh : forall t y, In t lvsX -> t_e1 t = EVar y -> ~ In y LX).
+    { intros t y Ht Ey Hy. apply (DjL y Hy). apply HTD. eauto. }
+    destruct (bind_inits_spec lvsX c1 cA Hbi HndL Hinifresh) as (EbA & XA & AA & WAf & TAf).
+    assert (WA : cx_wf2 cA (LX ++ D)).
+    { apply WAf; auto. intros t y Ht Ey. split; [apply HTD; eauto | eauto]. }
+    assert (HTA : tscope cA (LX ++ Tst) Tst).
+    { apply TAf; [apply tscope_self; auto | | exact HiniT].
+      intros x Hx. split; intros Hi; apply (DjL x Hx); auto. }
+    assert (HS2 : incl' (LX ++ Tst) (LX ++ D)) by inc2.
+    assert (HdjB : disj (binders_l body) (LX ++ D)).
+    { intros x Hx. rewrite in_app_iff. intros [Hl|Hd]; [eapply DLB | eapply DjB]; eauto. }
+    destruct (HQ body cA first cB bA fA (LX ++ Tst) Hccp HfA Hsb (LX ++ D) WA HS2 HndB HdjB) as [Hst Hd].
+    split; [assumption|]. split; [assumption|]. split; [assumption|]. split; [assumption|].
+    intros et tr HR.
+    assert (HRh : Rel2 w cA (LX ++ Tst) [] (bind_e1 w lvsX et) et).
+    { unfold bind_e1. rewrite (bind_inits_as_fas lvsX c1) in Hbi by (intros t y Ht Ey; split; eauto).
+      apply (R2_bind_fas true lvsX c1 cA Tst [] Tst et et D HR Hbi HndL DjL HTD (incl'_nil _) (cx_wf2_wf c1 D Hwf) (incl'_refl _)).
+      intros t Ht. apply Hl1. exact Ht. }
+    split; [exact HRh|]. apply Hd; auto; [apply incl'_refl | apply incl'_nil].
+  Qed.
+  Lemma tscope_more_T c S0 T L : tscope c S0 T ->
+    (forall x, In x L -> assoc x (cx_v c) = None /\ assoc x (cx_b c) = None) -> tscope c S0 (L ++ T).
+  Proof.
+    intros (H1 & H2 & H3) HL. split; [|split].
+    - intros x y Hx E. apply in_or_app. right. eauto.
+    - intros y Hy. apply in_app_or in Hy. destruct Hy as [Hy|Hy]; [apply HL; assumption | auto].
+    - intros z op y k Hz E. apply in_app_or in Hz. destruct Hz as [Hz|Hz].
+      + destruct (HL z Hz) as [_ Eb]. congruence.
+      + apply in_or_app. right. eauto.
+  Qed.
+
+  (* the first run ends in its only break: the loop is replaced by that run *)
+  Lemma tl_break n lvsX body bc c1 Tst cA rest v cB bA fA c' :
+    Qn n -> scoped Tst (SWhile lvsX body bc) = true ->
+    (forall x, In x Tst -> assoc x (cx_v c1) = None) ->
+    (forall z op y k, In z Tst -> assoc z (cx_b c1) = Some (op, y, k) -> In y Tst) ->
+    bind_inits lvsX c1 = Some cA -> ccp_stmts g n body cA = Some (rest ++ [SBreak v], cB, bA, fA) -> fst fA = false ->
+    no_break_l rest = true ->
+    match bc with Some b => bind b (opt_expr (cx_v c1) v) c1 = Some c' | None => c' = c1 end ->
+    tgood (map t_name lvsX ++ binders_l body ++ opt_names bc) (opt_names bc) (SWhile lvsX body bc) Tst c1 rest c'.
+  Proof.
+    intros HQ Hsc HTn HTb Hbi Hccp HfA Hnb Hbc D Hwf HTD Hnd Hdj. set (LX := map t_name lvsX) in *.
+    destruct (tl_first n lvsX body bc c1 Tst cA _ cB bA fA D HQ Hsc HTn HTb Hbi Hccp HfA Hwf HTD Hnd Hdj)
+      as (WA & XA & HTA & (WB & XB & BB & NB & SB) & Hdyn).
+    fold LX in WA, XA, HTA, WB, XB, BB, NB, SB, Hdyn.
+    rewrite binders_l_app in BB, NB. cbn [binders_l binders] in BB, NB. rewrite app_nil_r in BB, NB.
+    assert (HndL : NoDup LX) by (eapply NoDup_app_l'; eauto).
+    assert (DjL : forall x, In x LX -> ~ In x D) by (intros x Hx Hd; eapply Hdj; eauto; rewrite !in_app_iff; auto).
+    assert (DjB : forall x, In x (binders_l body) -> ~ In x D) by (intros x Hx Hd; eapply Hdj; eauto; rewrite !in_app_iff; auto).
+    assert (Djc : forall x, In x (opt_names bc) -> ~ In x D) by (intros x Hx Hd; eapply Hdj; eauto; rewrite !in_app_iff; auto).
+    assert (DLc : forall x, In x LX -> In x (opt_names bc) -> False).
+    { intros x H1 H2. eapply (NoDup_app_disj' _ _ x Hnd); eauto. rewrite in_app_iff. auto. }
+    assert (DBc : forall x, In x (binders_l body) -> In x (opt_names bc) -> False).
+    { intros x H1 H2. apply NoDup_app_r' in Hnd. eapply (NoDup_app_disj' _ _ x Hnd); eauto. }
+    assert (Hrb : forall x, In x (defs_l rest) -> In x (binders_l body)) by (intros x Hx; apply BB; now apply defs_l_in_binders).
+    assert (Hnoent : forall x, ~ In x D -> assoc x (cx_v c1) = None /\ assoc x (cx_b c1) = None).
+    { intros x Hx. split; [eapply cx_wf_notin_v | eapply cx_wf_notin_b]; eauto; apply Hwf. }
+    (* the break value is a name of the optimised code *)
+    destruct (SB Tst HTA ltac:(inc2)) as [SBs _].
+    rewrite scoped_l_app in SBs. apply andb_prop in SBs. destruct SBs as [_ Hv]. cbn in Hv. rewrite andb_true_r in Hv.
+    assert (Hvy : forall y, v = EVar y -> In y (defs_l rest ++ Tst)) by (intros y ->; now apply in_scope_var in Hv).
+    assert (Hov : opt_expr (cx_v c1) v = v).
+    { destruct v as [| | |y]; try reflexivity. cbn. specialize (Hvy y eq_refl). apply in_app_or in Hvy.
+      destruct Hvy as [Hy|Hy]; [destruct (Hnoent y (DjB y (Hrb y Hy))) as [-> _] | rewrite (HTn y Hy)]; reflexivity. }
+    rewrite Hov in Hbc.
+    assert (HbcN : forall b, bc = Some b -> ~ In b (LX ++ binders_l body ++ D)).
+    { intros b ->. rewrite !in_app_iff. intros [H|[H|H]]; [eapply DLc | eapply DBc | eapply Djc]; eauto; left; reflexivity. }
+    split.
+    - split; [|split; [|split; [|split]]].
+      + destruct bc as [b|]; [|subst c'; eapply cx_wf2_mono; eauto; inc].
+        assert (W1 : cx_wf2 c1 (LX ++ binders_l body ++ D)) by (eapply cx_wf2_mono; eauto; inc).
+        eapply cx_wf2_mono; [eapply (bind_wf2 b v c1 c' _ Hbc W1 (HbcN b eq_refl))|inc].
+        intros y Ey. specialize (Hvy y Ey). apply in_app_or in Hvy. destruct Hvy as [Hy|Hy].
+        * split; [rewrite !in_app_iff; auto|]. apply Hnoent. auto.
+        * split; [rewrite !in_app_iff; auto | auto].
+      + destruct bc as [b|]; [|subst c'; apply ext_refl]. eapply ext_mono; [eapply bind_ext; eauto|]. inc.
+      + eapply incl'_trans; eauto. inc.
+      + assumption.
+      + intros T HT HTDD. pose proof (tscope_super _ _ _ HT HTn) as Hsup.
+        assert (HT2 : tscope cA (LX ++ Tst) T).
+        { destruct (bind_inits_spec lvsX c1 cA Hbi HndL) as (_ & _ & _ & _ & TAf).
+          - intros t y Ht Ey Hy. apply (DjL y Hy). apply HTD.
+            rewrite scoped_SWhile in Hsc. apply andb_prop in Hsc. destruct Hsc as [Hsc _]. apply andb_prop in Hsc. destruct Hsc as [Hl1 _].
+            rewrite forallb_forall in Hl1. specialize (Hl1 t Ht). rewrite Ey in Hl1. now apply in_scope_var in Hl1.
+          - apply TAf; auto.
+            + intros x Hx. split; intros Hi; apply (DjL x Hx); auto.
+            + intros t y Ht Ey. apply Hsup.
+              rewrite scoped_SWhile in Hsc. apply andb_prop in Hsc. destruct Hsc as [Hsc _]. apply andb_prop in Hsc. destruct Hsc as [Hl1 _].
+              rewrite forallb_forall in Hl1. specialize (Hl1 t Ht). rewrite Ey in Hl1. now apply in_scope_var in Hl1. }
+        destruct (SB T HT2 ltac:(inc2)) as [A1 _].
+        rewrite scoped_l_app in A1. apply andb_prop in A1. destruct A1 as [A1 A2]. split; [assumption|]. intros _.
+        assert (HT3 : tscope c1 Tst (defs_l rest ++ T)).
+        { apply tscope_more_T; auto. }
+        destruct bc as [b|]; cbn [opt_names app]; [|subst c'; exact HT3].
+        apply (tscope_bind b v c1 c' Tst _ Hbc HT3).
+        * intros Hi. apply (HbcN b eq_refl). rewrite !in_app_iff. auto.
+        * intros Hi. apply (HbcN b eq_refl). rewrite !in_app_iff in *. destruct Hi as [Hi|Hi]; auto.
+        * intros y Ey. specialize (Hvy y Ey). rewrite !in_app_iff in *. destruct Hvy; auto.
+    - intros et tr HR. rewrite exec_SWhile.
+      destruct fuel as [|k]; [cbn; exact I|]. cbn [loop]. destruct (Hdyn et tr HR) as [HRh Hd].
+      pose proof (frame_block Add w (S k) body (bind_e1 w lvsX et) tr) as Hfb.
+      destruct (exec_block Add w (S k) body (bind_e1 w lvsX et) tr) as [ab t1|vb a1 t1| | | | |] eqn:Eb; cbn [dyn dynT] in *; auto.
+      + destruct Hd as (_ & et' & S' & J' & Ex & _). exfalso. eapply ends_break_not_next; [|exact Ex]. apply ends_break_app.
+      + destruct Hd as [et' Ex]. rewrite exec_block_break_last in Ex.
+        pose proof (frame_block Add w fuel rest et tr) as Hfr.
+        destruct (exec_block_t rest et tr) as [etr t2| | | | | |] eqn:Er; try discriminate.
+        2:{ exfalso. eapply (proj2 (no_break_not_break Add w fuel)); eauto. }
+        cbn in Ex. injection Ex as Ev <- <-. exists etr, (defs_l rest). split; [reflexivity|]. split; [|intros x Hx; apply Hrb in Hx; rewrite !in_app_iff; auto].
+        cbn [frame_res] in Hfb, Hfr.
+        assert (HR1 : Rel2 w c1 Tst [] a1 etr).
+        { apply (R2_frame w c1 Tst [] et et a1 etr HR).
+          - intros x Hx. rewrite Hfb; [unfold bind_e1; apply lookup_bind_notin|]; intros Hi; [apply (DjL x) | apply (DjB x)]; auto.
+          - intros x Hx. rewrite app_nil_r in Hx. apply Hfr. intros Hi. apply (DjB x); auto. }
+        assert (HR2 : Rel2 w c1 Tst (defs_l rest) a1 etr).
+        { apply (R2_more_J w c1 Tst [] _ a1 etr HR1 (incl'_nil _)). intros z op y k0 Hz _ E.
+          destruct (Hnoent z (DjB z (Hrb z Hz))) as [_ E']. congruence. }
+        destruct bc as [b|]; cbn [bind_opt opt_names app]; [|subst c'; exact HR2].
+        apply (R2_bind w c1 c' Tst _ a1 etr b v vb HR2 Hbc).
+        * intros Hi. apply (HbcN b eq_refl). rewrite !in_app_iff in *. destruct Hi as [Hi|Hi]; auto.
+        * apply Hnoent. intros Hi. apply (HbcN b eq_refl). rewrite !in_app_iff. auto.
+        * rewrite <- Ev. apply eval_wrap.
+        * intros y Ey. specialize (Hvy y Ey). rewrite !in_app_iff in *. destruct Hvy; auto.
+  Qed.
+  (* the first run is empty: the loop can start from the loop values of that run *)
+  Lemma tl_advance n lvsX body bc c1 Tst cA cB bA fA out c' :
+    Qn n -> scoped Tst (SWhile lvsX body bc) = true ->
+    (forall x, In x Tst -> assoc x (cx_v c1) = None) ->
+    (forall z op y k, In z Tst -> assoc z (cx_b c1) = Some (op, y, k) -> In y Tst) ->
+    bind_inits lvsX c1 = Some cA -> ccp_stmts g n body cA = Some ([], cB, bA, fA) -> fst fA = false ->
+    (scoped Tst (SWhile (map (fun t => (t_name t, opt_expr (cx_v cB) (t_e2 t), t_e2 t)) lvsX) body bc) = true ->
+     tgood (map t_name lvsX ++ binders_l body ++ opt_names bc) (opt_names bc)
+           (SWhile (map (fun t => (t_name t, opt_expr (cx_v cB) (t_e2 t), t_e2 t)) lvsX) body bc) Tst c1 out c') ->
+    tgood (map t_name lvsX ++ binders_l body ++ opt_names bc) (opt_names bc) (SWhile lvsX body bc) Tst c1 out c'.
+  Proof.
+    intros HQ Hsc HTn HTb Hbi Hccp HfA Hadv D Hwf HTD Hnd Hdj. set (LX := map t_name lvsX) in *.
+    set (adv := map (fun t => (t_name t, opt_expr (cx_v cB) (t_e2 t), t_e2 t)) lvsX) in *.
+    destruct (tl_first n lvsX body bc c1 Tst cA _ cB bA fA D HQ Hsc HTn HTb Hbi Hccp HfA Hwf HTD Hnd Hdj)
+      as (WA & XA & HTA & (WB & XB & BB & NB & SB) & Hdyn).
+    fold LX in WA, XA, HTA, WB, XB, SB, Hdyn.
+    assert (bA = false) as ->.
+    { destruct bA; [|reflexivity]. pose proof (ccps_brk_ends n body cA [] cB fA Hccp) as Hx. discriminate Hx. }
+    destruct (SB Tst HTA ltac:(inc2)) as [_ HTB]. specialize (HTB eq_refl). cbn [defs_l app] in HTB.
+    pose proof Hsc as Hsc'. rewrite scoped_SWhile in Hsc'. apply andb_prop in Hsc'. destruct Hsc' as [Hsc' Hl2].
+    apply andb_prop in Hsc'. destruct Hsc' as [Hl1 Hsb]. fold LX in Hsb, Hl2.
+    assert (En : map t_name adv = LX) by (unfold adv; rewrite map_map; reflexivity).
+    assert (Hsadv : scoped Tst (SWhile adv body bc) = true).
+    { rewrite scoped_SWhile, En, Hsb, andb_true_r. rewrite forallb_forall in Hl2. apply andb_true_intro. split.
+      - rewrite forallb_forall. intros t Ht. apply in_map_iff in Ht. destruct Ht as [t0 [<- Ht0]]. cbn.
+        eapply tscope_expr; eauto.
+      - rewrite forallb_forall. intros t Ht. apply in_map_iff in Ht. destruct Ht as [t0 [<- Ht0]]. cbn. auto. }
+    destruct (Hadv Hsadv D Hwf HTD Hnd Hdj) as [Hst HdA]. split; [exact Hst|].
+    intros et tr HR. destruct (Hdyn et tr HR) as [HRh Hd]. specialize (HdA et tr HR).
+    destruct (exec_o (SWhile lvsX body bc) et tr) as [e1 t|v0 e0 t0| | | | |] eqn:EW; cbn [dynT]; auto.
+    2:{ exfalso. eapply while_never_break; eauto. }
+    apply while_first in EW.
+    destruct EW as [(v & a1 & Eb & ->)|(ab & t1 & k & v & a1 & Ef & Eb & El & ->)]; rewrite Eb in Hd; cbn [dyn] in Hd.
+    - destruct Hd as [et' Ex]. rewrite exec_block_nil in Ex. discriminate.
+    - destruct Hd as (_ & et' & S' & J' & Ex & HRB & Lo & Up & LJ & UJ). rewrite exec_block_nil in Ex. injection Ex as <- <-.
+      pose proof (frame_block Add w fuel body (bind_e1 w lvsX et) tr) as Hfb. rewrite Eb in Hfb. cbn [frame_res] in Hfb.
+      assert (DjL : forall x, In x LX -> ~ In x D) by (intros x Hx Hd; eapply Hdj; eauto; rewrite !in_app_iff; auto).
+      assert (DjB : forall x, In x (binders_l body) -> ~ In x D) by (intros x Hx Hd; eapply Hdj; eauto; rewrite !in_app_iff; auto).
+      rewrite forallb_forall in Hl2.
+      assert (Ha : agree w (LX ++ Tst) (bind_e2 w lvsX ab) (bind_e1 w adv et)).
+      { unfold bind_e2, bind_e1. rewrite En. unfold adv. rewrite map_map. cbn [t_e1].
+        apply (agree_bind2 w t_e2 (fun t => opt_expr (cx_v cB) (t_e2 t)) lvsX Tst ab et ab et).
+        - intros t0 Ht0. apply (R2_expr w cB S' J' ab et (t_e2 t0) HRB). intros x Ex. apply Lo.
+          specialize (Hl2 t0 Ht0). rewrite Ex in Hl2. now apply in_scope_var in Hl2.
+        - intros x Hx. apply eval_var_lookup. rewrite Hfb by (intros Hi; apply (DjB x); auto).
+          unfold bind_e1. apply lookup_bind_notin. intros Hi. apply (DjL x); auto. }
+      destruct (while_advance Add w fuel lvsX (fun t => opt_expr (cx_v cB) (t_e2 t)) body bc Tst et tr k ab v a1 t Ef)
+        as [a1' [EWa Ha1]]; auto.
+      + apply scoped_l_scopedc. exact Hsb.
+      + apply orb_true_intro. right. rewrite forallb_forall. exact Hl2.
+      + fold adv in EWa. rewrite EWa in HdA. cbn [dynT] in HdA. destruct HdA as (et2 & J2 & Ex2 & HR2 & HJ2).
+        exists et2, J2. split; [exact Ex2|]. split; [|exact HJ2]. apply (R2_eo _ _ _ _ _ _ HR2).
+        apply agree_bind_opt. apply agree_sym. eapply agree_sub; eauto. inc.
+  Qed.
+  Lemma split_last_spec {A} (l : list A) :
+    match split_last l with Some (r, x) => l = r ++ [x] | None => l = [] end.
+  Proof.
+    induction l as [|a l IH]; cbn; [reflexivity|]. destruct l as [|b l']; [reflexivity|].
+    destruct (split_last (b :: l')) as [[i z]|]; [|discriminate]. cbn. now rewrite IH.
+  Qed.
+
+  Lemma tl_tgood n bc c1 Tst body :
+    Qn n -> (forall x, In x Tst -> assoc x (cx_v c1) = None) ->
+    (forall z op y k, In z Tst -> assoc z (cx_b c1) = Some (op, y, k) -> In y Tst) ->
+    forall depth lvsX out c' brk f,
+    try_loop g (ccp_stmts g n) depth lvsX body bc c1 = Some (out, c', brk, f) -> fst f = false ->
+    scoped Tst (SWhile lvsX body bc) = true ->
+    brk = false /\
+    tgood (map t_name lvsX ++ binders_l body ++ opt_names bc) (opt_names bc) (SWhile lvsX body bc) Tst c1 out c'.
+  Proof.
+    intros HQ HTn HTb.
+    assert (En : forall (cB : cx) lvsX, map t_name (map (fun t => (t_name t, opt_expr (cx_v cB) (t_e2 t), t_e2 t)) lvsX) = map t_name lvsX)
+      by (intros; rewrite map_map; reflexivity).
+    induction depth as [|d IH]; intros lvsX out c' brk f H Hf Hsc; cbn [try_loop] in H;
+      (destruct (bind_inits lvsX c1) as [cA|] eqn:Hbi; [|discriminate]);
+      (destruct (ccp_stmts g n body cA) as [[[[first cB] bA] fA]|] eqn:Hccp; [|discriminate]);
+      pose proof (split_last_spec first) as Hsl;
+      (destruct (split_last first) as [[rest last]|];
+       [ rewrite Hg1 in H; cbn [andb negb] in H;
+         destruct (negb (is_break last) || negb (no_break_l rest)) eqn:Ec;
+         [ injection H as <- <- <- <-; split; [reflexivity|]; apply tl_keep; auto
+         | destruct last; try discriminate H; apply orb_false_elim in Ec; destruct Ec as [_ Ec];
+           apply negb_false_iff in Ec; subst first;
+           assert (HfA : fst fA = false);
+           [ destruct bc as [b|]; [destruct (bind b _ c1); [|discriminate]|]; injection H as _ _ _ <-;
+             apply orf_false in Hf; apply Hf
+           | destruct bc as [b|];
+             [ destruct (bind b _ c1) as [cb|] eqn:Eb; [|discriminate]; injection H as <- <- <- _; split; [reflexivity|];
+               eapply tl_break; eauto
+             | injection H as <- <- <- _; split; [reflexivity|]; eapply tl_break; eauto ] ] ]
+       | subst first ]).
+    - injection H as <- <- <- <-. split; [reflexivity|]. eapply tl_advance; eauto.
+      intros Hs. rewrite <- (En cB lvsX). apply tl_keep; auto.
+    - destruct (try_loop g (ccp_stmts g n) d _ body bc c1) as [[[[o c2] b2] f2]|] eqn:Et; [|discriminate].
+      injection H as <- <- <- <-. apply orf_false in Hf. destruct Hf as [HfA Hf2].
+      assert (b2 = false) as -> by (eapply try_loop_brk; eauto).
+      split; [reflexivity|]. eapply tl_advance; eauto.
+      intros Hs. rewrite <- (En cB lvsX). eapply IH; eauto.
+  Qed.
+  (* ---------------------------------------------------------------- While, first stage: the optimised loop *)
+  Definition Fw (c1 c_in : cx) (t : triple) : (name * expr * expr)%type :=
+    (t_name t, opt_expr (cx_v c1) (t_e1 t), opt_expr (cx_v c_in) (t_e2 t)).
+
+  Lemma while_stage1 n lvs ss bc c K c1 f0 body c_in bb f1 S0 D :
+    Qn n -> elim_lvs g lvs c = Some (K, c1, f0) -> ccp_stmts g n ss c1 = Some (body, c_in, bb, f1) -> fst f1 = false ->
+    scoped S0 (SWhile lvs ss bc) = true ->
+    cx_wf2 c D -> incl' S0 D -> NoDup (binders (SWhile lvs ss bc)) -> disj (binders (SWhile lvs ss bc)) D ->
+    let lvs' := map (Fw c1 c_in) K in
+    let LN := map t_name lvs in
+    cx_wf2 c1 (LN ++ D) /\ ext_outside LN c c1 /\ cx_b c1 = cx_b c /\
+    incl' (binders_l body) (binders_l ss) /\ NoDup (binders_l body) /\
+    map t_name lvs' = map t_name K /\ incl' (map t_name K) LN /\ NoDup (map t_name K) /\
+    (forall T, tscope c S0 T -> incl' T D ->
+       tscope c1 S0 T /\ (forall t, In t lvs' -> in_scope T (t_e1 t) = true) /\
+       scoped_l (map t_name lvs' ++ T) body = true /\
+       (ends_break body = false ->
+        forall t, In t lvs' -> in_scope (defs_l body ++ map t_name lvs' ++ T) (t_e2 t) = true)) /\
+    (forall S J eo et tr, incl' S0 S -> incl' S D -> incl' J D -> Rel2 w c S J eo et ->
+       match exec_o (SWhile lvs ss bc) eo tr with
+       | RNext eo' tr' => exists et', exec_t (SWhile lvs' body bc) et tr = RNext et' tr' /\
+                                      Rel2 w c1 (opt_names bc ++ S) J eo' et'
+       | _ => True
+       end).
+  Proof.
+    intros HQ Ee Eb Hf1 Hsc Hwf HS0 Hnd Hdj lvs' LN.
+    rewrite scoped_SWhile in Hsc. apply andb_prop in Hsc. destruct Hsc as [Hsc Hl2].
+    apply andb_prop in Hsc. destruct Hsc as [Hl1 Hss]. rewrite forallb_forall in Hl1, Hl2.
+    rewrite binders_SWhile in Hnd, Hdj. fold LN in Hss, Hl2, Hnd, Hdj.
+    specialize (HQ ss c1 body c_in bb f1 (LN ++ S0) Eb Hf1 Hss).
+    assert (HndL : NoDup LN) by (eapply NoDup_app_l'; eauto).
+    assert (HndB : NoDup (binders_l ss)) by (eapply NoDup_app_l', NoDup_app_r'; eauto).
+    assert (DLB : forall x, In x LN -> In x (binders_l ss) -> False).
+    { intros x H1 H2. eapply (NoDup_app_disj' _ _ x Hnd); eauto. rewrite in_app_iff. auto. }
+    assert (DjL : forall x, In x LN -> ~ In x D) by (intros x Hx Hd; eapply Hdj; eauto; rewrite !in_app_iff; auto).
+    assert (DjB : forall x, In x (binders_l ss) -> ~ In x D) by (intros x Hx Hd; eapply Hdj; eauto; rewrite !in_app_iff; auto).
+    assert (Djc : forall x, In x (opt_names bc) -> ~ In x D) by (intros x Hx Hd; eapply Hdj; eauto; rewrite !in_app_iff; auto).
+    assert (DLc : forall x, In x LN -> In x (opt_names bc) -> False).
+    { intros x H1 H2. eapply (NoDup_app_disj' _ _ x Hnd); eauto. rewrite in_app_iff. auto. }
+    assert (Hinitfresh : forall t y, In t lvs -> t_e1 t = EVar y -> ~ In y LN).
+    { intros t y Ht Ey Hy. apply (DjL y Hy). apply HS0. apply in_scope_var. rewrite <- Ey. auto. }
+    destruct (elim_spec2 lvs c K c1 f0 Ee HndL Hinitfresh) as (EK & Ebc & X1 & A1 & W1 & T1 & _).
+    assert (HwfL : cx_wf2 c1 (LN ++ D)) by (apply (W1 D S0 Hwf HS0); auto).
+    assert (HS0L : incl' (LN ++ S0) (LN ++ D)) by inc2.
+    assert (HdjB : disj (binders_l ss) (LN ++ D)).
+    { intros x Hx. rewrite in_app_iff. intros [Hl|Hd]; [eapply DLB | eapply DjB]; eauto. }
+    destruct (HQ (LN ++ D) HwfL HS0L HndB HdjB) as [(Wb & Xb & Bb & Nb & Sb) Hdb].
+    assert (HKin : forall t, In t K -> In t lvs /\ is_elim t = false).
+    { intros t Ht. rewrite EK in Ht. apply filter_In in Ht. destruct Ht as [Ht He]. split; auto. now apply negb_true_iff in He. }
+    assert (HinK : forall t, In t lvs -> is_elim t = false -> In t K).
+    { intros t Ht He. rewrite EK. apply filter_In. split; auto. now rewrite He. }
+    assert (HndK : NoDup (map t_name K)) by (rewrite EK; now apply NoDup_filter_names).
+    assert (ELK : map t_name lvs' = map t_name K) by (unfold lvs'; rewrite map_map; reflexivity).
+    assert (HLK : forall x, In x (map t_name K) -> In x LN).
+    { intros x Hx. apply in_map_iff in Hx. destruct Hx as [t [<- Ht]]. apply in_map. apply HKin. exact Ht. }
+    assert (Hopt1 : forall t, In t lvs -> opt_expr (cx_v c1) (t_e1 t) = opt_expr (cx_v c) (t_e1 t)).
+    { intros t Ht. destruct (t_e1 t) eqn:Ep; try reflexivity. cbn. destruct (X1 x) as [-> _]; [|reflexivity].
+      eapply Hinitfresh; eauto. }
+    split; [exact HwfL|]. split; [exact X1|]. split; [exact Ebc|]. split; [exact Bb|]. split; [exact Nb|].
+    split; [exact ELK|]. split; [exact HLK|]. split; [exact HndK|]. split.
+    - intros T HT HTD.
+      assert (HTL : forall x, In x LN -> ~ In x S0 /\ ~ In x T /\ assoc x (cx_v c) = None /\ assoc x (cx_b c) = None).
+      { intros x Hx. split; [intros Hi; apply (DjL x Hx); auto|]. split; [intros Hi; apply (DjL x Hx); auto|].
+        split; [eapply cx_wf_notin_v | eapply cx_wf_notin_b]; eauto; apply Hwf. }
+      assert (HT1 : tscope c1 (LN ++ S0) (map t_name K ++ T)) by (apply T1; auto).
+      assert (HT1o : tscope c1 S0 T).
+      { eapply tscope_ext; [exact X1 | | | exact HT]; intros x Hx Hl; apply (DjL x Hl); auto. }
+      destruct (Sb (map t_name K ++ T) HT1) as [Sb1 Sb2].
+      { intros x. rewrite !in_app_iff. intros [Hx|Hx]; auto. }
+      split; [exact HT1o|]. split; [|split].
+      + intros t Ht. apply in_map_iff in Ht. destruct Ht as [t0 [<- Ht0]]. cbn. eapply tscope_expr; eauto.
+        apply Hl1. apply HKin. exact Ht0.
+      + rewrite ELK. exact Sb1.
+      + intros Hnb t Ht. assert (bb = false) as ->.
+        { destruct bb; [|reflexivity]. rewrite (ccps_brk_ends n ss c1 body c_in f1 Eb) in Hnb. discriminate. }
+        specialize (Sb2 eq_refl). apply in_map_iff in Ht. destruct Ht as [t0 [<- Ht0]]. cbn. rewrite ELK.
+        eapply tscope_expr; eauto. apply Hl2. apply HKin. exact Ht0.
+    - intros S J eo et tr Hi1 Hi2 HiJ HR.
+      assert (HSL : forall x, In x S -> ~ In x LN) by (intros x Hx Hl; apply (DjL x Hl); auto).
+      assert (HJL : forall x, In x J -> ~ In x LN) by (intros x Hx Hl; apply (DjL x Hl); auto).
+      assert (HSB : forall x, In x S -> ~ In x (binders_l ss)) by (intros x Hx Hb; apply (DjB x Hb); auto).
+      assert (HJB : forall x, In x J -> ~ In x (binders_l ss)) by (intros x Hx Hb; apply (DjB x Hb); auto).
+      assert (HSJLK : forall x, In x (S ++ J) -> ~ In x (map t_name lvs')).
+      { intros x Hx Hl. rewrite ELK in Hl. apply HLK in Hl. apply in_app_or in Hx. destruct Hx; [eapply HSL | eapply HJL]; eauto. }
+      assert (Hinit_in : forall t, In t lvs -> forall y, t_e1 t = EVar y -> In y S).
+      { intros t Ht. eapply in_scope_In; eauto. }
+      set (Iv := fun eh th : env =>
+        Rel2 w c S J eh th /\ (forall x, In x S -> lookup x eh = lookup x eo) /\
+        (forall x, In x (S ++ J) -> lookup x th = lookup x et) /\
+        forall t, In t lvs -> if is_elim t then eval w eh (EVar (t_name t)) = eval w eo (t_e1 t)
+                              else lookup (t_name t) eh = lookup (t_name t) th).
+      assert (HF : forall t, In t K -> find (fun t' : triple => N.eqb (t_name t) (t_name t')) lvs' = Some (Fw c1 c_in t)).
+      { intros t Ht. apply find_mapped; auto. }
+      assert (HRel1 : forall eh th, Iv eh th -> Rel2 w c1 (LN ++ S) J eh th).
+      { intros eh th (HRh & Hfro & Hfrt & Hlv). pose proof HRh as (RV & RI & RB).
+        assert (Ho : forall x, In x S -> opt_expr (cx_v c1) (EVar x) = opt_expr (cx_v c) (EVar x)).
+        { intros x Hx. cbn. destruct (X1 x (HSL x Hx)) as [-> _]. reflexivity. }
+        assert (Hoe : forall t, In t lvs -> is_elim t = true -> opt_expr (cx_v c1) (EVar (t_name t)) = opt_expr (cx_v c) (t_e1 t)).
+        { intros t Ht He. cbn. pose proof (A1 t Ht) as A. rewrite He in A. now rewrite A. }
+        assert (Hok : forall t, In t lvs -> is_elim t = false -> opt_expr (cx_v c1) (EVar (t_name t)) = EVar (t_name t)).
+        { intros t Ht He. cbn. pose proof (A1 t Ht) as A. rewrite He in A. rewrite A.
+          rewrite (cx_wf_notin_v c D (t_name t) (cx_wf2_wf _ _ Hwf)); [reflexivity|]. apply DjL. now apply in_map. }
+        assert (Hup : forall x, In x (S ++ J) -> In x ((LN ++ S) ++ J)) by inc.
+        split; [|split].
+        - intros x Hx. destruct (in_dec N.eq_dec x LN) as [Hl|Hn].
+          + apply in_map_iff in Hl. destruct Hl as [t [<- Ht]]. specialize (Hlv t Ht).
+            destruct (is_elim t) eqn:He.
+            * rewrite (Hoe t Ht He), Hlv.
+              rewrite (R2_expr w c S J eo et (t_e1 t) HR (Hinit_in t Ht)).
+              symmetry. apply (eval_same_on w (S ++ J)).
+              -- intros y Ey. eapply (R2_expr_scope w c S J eo et (t_e1 t)); eauto.
+              -- intros y Hy. apply Hfrt. exact Hy.
+            * rewrite (Hok t Ht He). unfold eval. now rewrite Hlv.
+          + rewrite in_app_iff in Hx. destruct Hx as [Hx|Hx]; [contradiction|]. rewrite (Ho x Hx). auto.
+        - intros x y Hx. destruct (in_dec N.eq_dec x LN) as [Hl|Hn].
+          + apply in_map_iff in Hl. destruct Hl as [t [<- Ht]]. destruct (is_elim t) eqn:He.
+            * rewrite (Hoe t Ht He). intros E. apply Hup.
+              eapply (R2_expr_scope w c S J eo et (t_e1 t)); eauto.
+            * rewrite (Hok t Ht He). intros [= <-]. apply in_or_app. left. apply in_or_app. left. now apply in_map.
+          + rewrite in_app_iff in Hx. destruct Hx as [Hx|Hx]; [contradiction|]. rewrite (Ho x Hx). intros E.
+            apply Hup. eauto.
+        - intros z op y k Hz. rewrite Ebc. intros E.
+          destruct (in_dec N.eq_dec z LN) as [Hl|Hn].
+          + exfalso. rewrite (cx_wf_notin_b c D z (cx_wf2_wf _ _ Hwf) (DjL z Hl)) in E. discriminate.
+          + assert (Hz' : In z (S ++ J)) by (rewrite !in_app_iff in *; tauto).
+            destruct (RB z op y k Hz' E) as (Hy & R). split; [apply Hup; assumption | exact R]. }
+      assert (Hinit : Iv (bind_e1 w lvs eo) (bind_e1 w lvs' et)).
+      { split; [|split; [|split]].
+        - eapply R2_frame; eauto; intros x Hx; unfold bind_e1.
+          + apply (lookup_bind_notin w t_e1). auto.
+          + apply (lookup_bind_notin w t_e1). auto.
+        - intros x Hx. unfold bind_e1. apply (lookup_bind_notin w t_e1); auto.
+        - intros x Hx. unfold bind_e1. apply (lookup_bind_notin w t_e1); auto.
+        - intros t Ht. destruct (is_elim t) eqn:He.
+          + unfold eval at 1. unfold bind_e1. rewrite (lookup_bind w t_e1), (find_name_unique lvs t HndL Ht). apply eval_wrap.
+          + unfold bind_e1. rewrite !(lookup_bind w t_e1), (find_name_unique lvs t HndL Ht), (HF t (HinK t Ht He)).
+            unfold Fw. cbn [t_e1 fst snd]. rewrite (Hopt1 t Ht). apply (R2_expr w c S J eo et (t_e1 t) HR). exact (Hinit_in t Ht). }
+      assert (Hstep : forall eh th t0, Iv eh th ->
+         match exec_block_o ss eh t0 with
+         | RNext e1' t1 => exists e2', exec_block_t body th t0 = RNext e2' t1 /\ Iv (bind_e2 w lvs e1') (bind_e2 w lvs' e2')
+         | RBreak v _ t1 => exists e2', exec_block_t body th t0 = RBreak v e2' t1
+         | _ => True
+         end).
+      { intros eh th t0 HIv. pose proof (HRel1 eh th HIv) as HRL. destruct HIv as (HRh & Hfro & Hfrt & Hlv).
+        assert (HiL1 : incl' (LN ++ S0) (LN ++ S)) by inc2.
+        assert (HiL2 : incl' (LN ++ S) (LN ++ D)) by inc2.
+        assert (HiL3 : incl' J (LN ++ D)) by inc2.
+        specialize (Hdb (LN ++ S) J eh th t0 HiL1 HiL2 HiL3 HRL).
+        pose proof (frame_block Add w fuel ss eh t0) as Fo.
+        destruct (exec_block_o ss eh t0) as [eo1 tr1|v eo1 tr1| | | | |]; cbn [dyn] in *; auto.
+        destruct Hdb as (_ & et1 & S1 & J1 & Ex1 & HR1 & Lo1 & Up1 & LJ1 & UJ1). exists et1. split; [assumption|].
+        pose proof (frame_block Add w fuel body th t0) as Ft. rewrite Ex1 in Ft. cbn in Fo, Ft.
+        assert (Fo' : forall x, In x S -> lookup x (bind_e2 w lvs eo1) = lookup x eh).
+        { intros x Hx. unfold bind_e2. rewrite (lookup_bind_notin w t_e2) by auto. apply Fo. auto. }
+        assert (Ft' : forall x, In x (S ++ J) -> lookup x (bind_e2 w lvs' et1) = lookup x th).
+        { intros x Hx. unfold bind_e2. rewrite (lookup_bind_notin w t_e2) by auto. apply Ft. intros Hb. apply Bb in Hb.
+          apply in_app_or in Hx. destruct Hx; [eapply HSB | eapply HJB]; eauto. }
+        split; [|split; [|split]].
+        - eapply R2_frame; eauto.
+        - intros x Hx. rewrite (Fo' x Hx). auto.
+        - intros x Hx. rewrite (Ft' x Hx). auto.
+        - intros t Ht. destruct (is_elim t) eqn:He.
+          + unfold eval at 1. unfold bind_e2. rewrite (lookup_bind w t_e2), (find_name_unique lvs t HndL Ht), eval_wrap.
+            unfold is_elim in He. rewrite <- (expr_eq_sound _ _ He w eo1).
+            apply (eval_same_on w S (t_e1 t) eo eo1 (Hinit_in t Ht)). intros y Hy. rewrite (Fo y) by auto. apply Hfro. exact Hy.
+          + unfold bind_e2. rewrite !(lookup_bind w t_e2), (find_name_unique lvs t HndL Ht), (HF t (HinK t Ht He)).
+            unfold Fw. cbn [t_e2 snd]. apply (R2_expr w c_in S1 J1 eo1 et1 (t_e2 t) HR1).
+            intros y Ey. apply Lo1. specialize (Hl2 t Ht). rewrite Ey in Hl2. apply in_scope_var in Hl2.
+            rewrite !in_app_iff in *. destruct Hl2 as [Hy|[Hy|Hy]]; auto. }
+      pose proof (loop_sim2 Iv _ _ _ _ Hstep fuel _ _ tr Hinit) as HL.
+      pose proof (frame_stmt Add w fuel (SWhile lvs ss bc) eo tr) as FWo.
+      pose proof (frame_stmt Add w fuel (SWhile lvs' body bc) et tr) as FWt.
+      rewrite exec_SWhile. rewrite exec_SWhile in FWo, FWt.
+      destruct (loop (exec_block_o ss) (bind_e2 w lvs) fuel (bind_e1 w lvs eo) tr) as [? ?|v eo1 tr1| | | | |] eqn:EL; auto.
+      destruct HL as [et1 HLt]. rewrite HLt in FWt.
+      exists (bind_opt bc v et1). split; [rewrite exec_SWhile, HLt; reflexivity|].
+      rewrite binders_SWhile in FWo, FWt. rewrite ELK in FWt. unfold frame_res in FWo, FWt.
+      apply R2_add_many.
+      + apply (R2_ext w c c1 S J LN); [|exact X1 | intros x Hx Hl; apply in_app_or in Hx; destruct Hx; [eapply HSL | eapply HJL]; eauto].
+        apply (R2_frame w c S J eo et _ _ HR); intros x Hx.
+        * apply FWo. rewrite !in_app_iff. intros [Hb|[Hb|Hb]]; [eapply HSL | eapply HSB | eapply Djc]; eauto.
+        * apply FWt. rewrite !in_app_iff. apply in_app_or in Hx.
+          intros [Hb|[Hb|Hb]]; destruct Hx as [Hx|Hx];
+            first [eapply HSL; eauto; fail | eapply HJL; eauto; fail | eapply HSB; eauto; fail | eapply HJB; eauto; fail | eapply Djc; eauto; fail].
+      + intros x Hx. destruct bc as [bn|]; [|destruct Hx]. destruct Hx as [<-|[]]. cbn [bind_opt lookup].
+        rewrite N.eqb_refl. split; [reflexivity|].
+        assert (Hbn : ~ In bn (LN ++ D)).
+        { rewrite in_app_iff. intros [Hl|Hd]; [eapply DLc; eauto; left; reflexivity | eapply Djc; eauto; left; reflexivity]. }
+        split; [apply (cx_wf_notin_v c1 _ bn (cx_wf2_wf _ _ HwfL) Hbn) | apply (cx_wf_notin_b c1 _ bn (cx_wf2_wf _ _ HwfL) Hbn)].
+  Qed.
+  (* ---------------------------------------------------------------- While: both stages composed *)
+  Definition efree (c : cx) (D : list name) : list name :=
+    filter (fun x => match assoc x (cx_v c) with None => true | Some _ => false end) D.
+  Lemma efree_In c D x : In x (efree c D) <-> In x D /\ assoc x (cx_v c) = None.
+  Proof. unfold efree. rewrite filter_In. destruct (assoc x (cx_v c)); split; intros [A B]; split; auto; discriminate. Qed.
+
+  Lemma tscope_efree c D S0 : cx_wf2 c D -> incl' S0 D -> tscope c S0 (efree c D).
+  Proof.
+    intros Hwf Hi. split; [|split].
+    - intros x y Hx E. apply efree_In. split; [eapply (opt_expr_range c D S0 (EVar x)); eauto; [apply Hwf | now apply in_scope_var] | eapply opt_idem; eauto].
+    - intros y Hy. apply efree_In in Hy. apply Hy.
+    - intros z op y k Hz E. apply efree_In. destruct Hwf as ((_ & Wb) & _ & W3). split; [apply (Wb z op y k E) | apply (W3 z op y k E)].
+  Qed.
+
+  (* the dynamic counterpart: the names of S ++ J without an entry *)
+  Lemma tscope_dyn c D S0 S J eo et : cx_wf2 c D -> incl' S0 S -> Rel2 w c S J eo et ->
+    tscope c S0 (efree c (S ++ J)) /\ Rel2 w c (efree c (S ++ J)) [] et et.
+  Proof.
+    intros Hwf Hi (RV & RI & RB). pose proof Hwf as (_ & _ & W3). split; [split; [|split]|split; [|split]].
+    - intros x y Hx E. apply efree_In. split; [eauto | eapply opt_idem; eauto].
+    - intros y Hy. apply efree_In in Hy. apply Hy.
+    - intros z op y k Hz E. apply efree_In in Hz. apply efree_In. destruct (RB z op y k (proj1 Hz) E) as (Hy & _).
+      split; [exact Hy | apply (W3 z op y k E)].
+    - intros x Hx. apply efree_In in Hx. cbn. now rewrite (proj2 Hx).
+    - intros x y Hx. apply efree_In in Hx. cbn. rewrite (proj2 Hx). intros [= <-]. rewrite app_nil_r. apply efree_In. exact Hx.
+    - intros z op y k Hz E. rewrite app_nil_r in *. apply efree_In in Hz. destruct (RB z op y k (proj1 Hz) E) as (Hy & R).
+      split; [|exact R]. apply efree_In. split; [exact Hy | apply (W3 z op y k E)].
+  Qed.
+
+  Lemma R2_compose c1 c4 S Sv J J' ds eo' et' et2 bs2 :
+    Rel2 w c1 (ds ++ S) J eo' et' -> Rel2 w c4 (ds ++ Sv) J' et' et2 ->
+    ext_outside bs2 c1 c4 -> (forall x, In x (S ++ J) -> ~ In x bs2) ->
+    (forall x, In x Sv <-> In x (S ++ J) /\ assoc x (cx_v c1) = None) ->
+    (forall x, In x ds -> assoc x (cx_v c1) = None) ->
+    (forall z op y k, assoc z (cx_b c1) = Some (op, y, k) -> assoc z (cx_v c1) = None) ->
+    (forall x y, opt_expr (cx_v c1) (EVar x) = EVar y -> assoc y (cx_v c1) = None) ->
+    (forall x y, In x S -> opt_expr (cx_v c1) (EVar x) = EVar y -> In y (S ++ J)) ->
+    Rel2 w c4 (ds ++ S) (J ++ Sv ++ J') eo' et2.
+  Proof.
+    intros (AV & AI & AB) (BV & BI & BB) X Hout HSv Hds W3 Hid HRI.
+    assert (Hsame : forall x, In x (S ++ J) -> opt_expr (cx_v c4) (EVar x) = opt_expr (cx_v c1) (EVar x)).
+    { intros x Hx. cbn. destruct (X x (Hout x Hx)) as [-> _]. reflexivity. }
+    assert (HSvid : forall y, In y Sv -> opt_expr (cx_v c4) (EVar y) = EVar y).
+    { intros y Hy. apply HSv in Hy. rewrite (Hsame y (proj1 Hy)). cbn. now rewrite (proj2 Hy). }
+    assert (Himg : forall x y, In x S -> opt_expr (cx_v c1) (EVar x) = EVar y -> In y Sv).
+    { intros x y Hx E. apply HSv. split; [eapply HRI; eauto | eapply Hid; eauto]. }
+    assert (HBup : forall x, In x ((ds ++ Sv) ++ J') -> In x ((ds ++ S) ++ J ++ Sv ++ J')) by inc.
+    split; [|split].
+    - intros x Hx. apply in_app_or in Hx. destruct Hx as [Hx|Hx].
+      + rewrite (AV x (in_or_app _ _ _ (or_introl Hx))). cbn [opt_expr]. rewrite (Hds x Hx).
+        apply BV. apply in_or_app. left. exact Hx.
+      + rewrite (AV x (in_or_app _ _ _ (or_intror Hx))). rewrite (Hsame x (in_or_app _ _ _ (or_introl Hx))).
+        destruct (opt_expr (cx_v c1) (EVar x)) as [| | |y] eqn:E; try reflexivity.
+        pose proof (Himg x y Hx E) as Hy. rewrite (BV y (in_or_app _ _ _ (or_intror Hy))). now rewrite (HSvid y Hy).
+    - intros x y Hx E. apply in_app_or in Hx. destruct Hx as [Hx|Hx].
+      + apply HBup. apply (BI x y); [apply in_or_app; left; exact Hx | exact E].
+      + rewrite (Hsame x (in_or_app _ _ _ (or_introl Hx))) in E. pose proof (Himg x y Hx E). rewrite !in_app_iff. auto.
+    - intros z op y k Hz E.
+      assert (Hcase : In z ((ds ++ Sv) ++ J') \/ (In z (S ++ J) /\ ~ In z Sv)).
+      { rewrite !in_app_iff in *. destruct (in_dec N.eq_dec z Sv); tauto. }
+      destruct Hcase as [Hz'|[Hz' Hn]].
+      + destruct (BB z op y k Hz' E) as (Hy & R). split; [apply HBup; exact Hy | exact R].
+      + exfalso. destruct (X z (Hout z Hz')) as [_ Eb]. rewrite Eb in E. apply Hn. apply HSv. split; [exact Hz' | eapply W3; eauto].
+  Qed.
+  Lemma tscope_compose cF c1 ds S0 T T2 :
+    tscope cF (ds ++ T) T2 -> tscope c1 S0 T -> incl' T T2 ->
+    (forall x, In x S0 -> opt_expr (cx_v cF) (EVar x) = opt_expr (cx_v c1) (EVar x)) ->
+    tscope cF (ds ++ S0) T2.
+  Proof.
+    intros (H1 & H2 & H3) (G1 & _ & _) Hi Hs. split; [|split]; auto.
+    intros x y Hx E. apply in_app_or in Hx. destruct Hx as [Hx|Hx].
+    - apply (H1 x y); [apply in_or_app; left; exact Hx | exact E].
+    - rewrite (Hs x Hx) in E. apply Hi. eauto.
+  Qed.
+
+  Definition minus (a b : list name) : list name := filter (fun x => negb (memb x b)) a.
+  Lemma minus_In a b x : In x (minus a b) <-> In x a /\ ~ In x b.
+  Proof.
+    unfold minus. rewrite filter_In. split; intros [A B]; split; auto.
+    - intros Hb. apply memb_In in Hb. rewrite Hb in B. discriminate.
+    - destruct (memb x b) eqn:E; [|reflexivity]. apply memb_In in E. contradiction.
+  Qed.
+
+  Lemma elim_wf_tight lvs c K c1 f0 D S0 :
+    elim_lvs g lvs c = Some (K, c1, f0) -> NoDup (map t_name lvs) ->
+    cx_wf2 c D -> incl' S0 D -> (forall t, In t lvs -> in_scope S0 (t_e1 t) = true) ->
+    (forall x, In x (map t_name lvs) -> ~ In x D) ->
+    cx_wf2 c1 (minus (map t_name lvs ++ D) (map t_name K)).
+  Proof.
+    intros Ee HndL Hwf HS0 Hl1 DjL. set (LN := map t_name lvs) in *.
+    assert (Hinitfresh : forall t y, In t lvs -> t_e1 t = EVar y -> ~ In y LN).
+    { intros t y Ht Ey Hy. apply (DjL y Hy). apply HS0. apply in_scope_var. rewrite <- Ey. auto. }
+    destruct (elim_spec2 lvs c K c1 f0 Ee HndL Hinitfresh) as (EK & Ebc & X1 & A1 & W1 & _ & _).
+    pose proof (W1 D S0 Hwf HS0 Hl1 DjL) as HwfL. fold LN in HwfL. destruct HwfL as ((V & B) & I2 & I3).
+    assert (HD : forall y, In y D -> In y (minus (LN ++ D) (map t_name K))).
+    { intros y Hy. apply minus_In. split; [apply in_or_app; auto|]. intros Hk. apply in_map_iff in Hk.
+      destruct Hk as [t [<- Ht]]. rewrite EK in Ht. apply filter_In in Ht. apply (DjL (t_name t)); [apply in_map; apply Ht | exact Hy]. }
+    split; [split|split; assumption].
+    - intros x e Ea. destruct (in_dec N.eq_dec x LN) as [Hl|Hn].
+      + apply in_map_iff in Hl. destruct Hl as [t [<- Ht]]. pose proof (A1 t Ht) as A. destruct (is_elim t) eqn:He.
+        * rewrite A in Ea. injection Ea as <-. split.
+          -- apply minus_In. split; [apply in_or_app; left; now apply in_map|]. intros Hk. apply in_map_iff in Hk.
+             destruct Hk as [t' [En Ht']]. rewrite EK in Ht'. apply filter_In in Ht'. destruct Ht' as [Ht' He'].
+             assert (t' = t).
+             { pose proof (find_name_unique lvs t HndL Ht) as F1. pose proof (find_name_unique lvs t' HndL Ht') as F2.
+               rewrite En in F2. congruence. }
+             subst t'. rewrite He in He'. discriminate.
+          -- intros y Ey. apply HD. eapply (opt_expr_range c D S0 (t_e1 t)); eauto. apply Hwf.
+        * rewrite A, (cx_wf_notin_v c D (t_name t) (cx_wf2_wf _ _ Hwf)) in Ea; [discriminate|]. apply DjL. now apply in_map.
+      + destruct (X1 x Hn) as [Ev _]. rewrite Ev in Ea. destruct Hwf as ((Vc & _) & _). destruct (Vc x e Ea) as [Hx Hy].
+        split; [apply HD; exact Hx | intros y Ey; apply HD; eauto].
+    - intros z op y k E. rewrite Ebc in E. destruct Hwf as ((_ & Bc) & _). destruct (Bc z op y k E) as (Hz & Hy & Hk).
+      split; [apply HD; exact Hz|]. split; [apply HD; exact Hy | exact Hk].
+  Qed.
+  Lemma P_SWhile n lvs ss bc c out c' brk f S0 :
+    Qn n ->
+    ccp_stmt g (S n) (SWhile lvs ss bc) c = Some (out, c', brk, f) -> fst f = false ->
+    scoped S0 (SWhile lvs ss bc) = true ->
+    good (binders (SWhile lvs ss bc)) (opt_names bc) (exec_o (SWhile lvs ss bc)) S0 c out c' brk.
+  Proof.
+    intros HQ H Hf Hsc. cbn [ccp_stmt] in H. fold (ccp_stmts g n) in H.
+    destruct (elim_lvs g lvs c) as [[[K c1] f0]|] eqn:Ee; [|discriminate].
+    destruct (ccp_stmts g n ss c1) as [[[[body c_in] bb] f1]|] eqn:Eb; [|discriminate].
+    change (fun t : triple => (t_name t, opt_expr (cx_v c1) (t_e1 t), opt_expr (cx_v c_in) (t_e2 t))) with (Fw c1 c_in) in H.
+    set (lvs' := map (Fw c1 c_in) K) in *.
+    set (bs2 := map t_name lvs' ++ binders_l body ++ opt_names bc).
+    (* what the two rewrites of the optimised loop provide, and what follows from it *)
+    assert (Hcomp : fst f1 = false -> brk = false ->
+      (forall D Tst, cx_wf2 c D -> incl' S0 D -> NoDup (binders (SWhile lvs ss bc)) -> disj (binders (SWhile lvs ss bc)) D ->
+                     tscope c S0 Tst -> incl' Tst D ->
+                     tgood bs2 (opt_names bc) (SWhile lvs' body bc) Tst c1 out c') ->
+      good (binders (SWhile lvs ss bc)) (opt_names bc) (exec_o (SWhile lvs ss bc)) S0 c out c' brk).
+    { intros Hf1 -> HT2 D Hwf HS0 Hnd Hdj.
+      destruct (while_stage1 n lvs ss bc c K c1 f0 body c_in bb f1 S0 D HQ Ee Eb Hf1 Hsc Hwf HS0 Hnd Hdj)
+        as (HwfL & X1 & Ebc & Bb & Nb & ELK & HLK & HndK & HstT & Hst1).
+      fold lvs' in ELK, HstT, Hst1.
+      specialize (fun Tst => HT2 D Tst Hwf HS0 Hnd Hdj).
+      pose proof Hsc as Hsc'. rewrite scoped_SWhile in Hsc'. apply andb_prop in Hsc'. destruct Hsc' as [Hsc' _].
+      apply andb_prop in Hsc'. destruct Hsc' as [Hl1 _]. rewrite forallb_forall in Hl1.
+      rewrite binders_SWhile in *. set (LN := map t_name lvs) in *.
+      assert (HndL : NoDup LN) by (eapply NoDup_app_l'; eauto).
+      assert (DLB : forall x, In x LN -> In x (binders_l ss) -> False).
+      { intros x H1 H2. eapply (NoDup_app_disj' _ _ x Hnd); eauto. rewrite in_app_iff. auto. }
+      assert (DjL : forall x, In x LN -> ~ In x D) by (intros x Hx Hd; eapply Hdj; eauto; rewrite !in_app_iff; auto).
+      assert (DjB : forall x, In x (binders_l ss) -> ~ In x D) by (intros x Hx Hd; eapply Hdj; eauto; rewrite !in_app_iff; auto).
+      assert (Djc : forall x, In x (opt_names bc) -> ~ In x D) by (intros x Hx Hd; eapply Hdj; eauto; rewrite !in_app_iff; auto).
+      assert (DLc : forall x, In x LN -> In x (opt_names bc) -> False).
+      { intros x H1 H2. eapply (NoDup_app_disj' _ _ x Hnd); eauto. rewrite in_app_iff. auto. }
+      assert (DBc : forall x, In x (binders_l ss) -> In x (opt_names bc) -> False).
+      { intros x H1 H2. apply NoDup_app_r' in Hnd. eapply (NoDup_app_disj' _ _ x Hnd); eauto. }
+      set (Dk := minus (LN ++ D) (map t_name K)).
+      pose proof (elim_wf_tight lvs c K c1 f0 D S0 Ee HndL Hwf HS0 Hl1 DjL) as Wk. fold LN Dk in Wk.
+      assert (HDk : incl' D Dk).
+      { intros y Hy. apply minus_In. split; [apply in_or_app; auto|]. intros Hk. apply (DjL y); auto. }
+      assert (Hnd2 : NoDup bs2).
+      { unfold bs2. rewrite ELK. apply NoDup_app_intro; [exact HndK | |].
+        - apply NoDup_app_intro; [exact Nb | eapply NoDup_app_r', NoDup_app_r'; eauto |].
+          intros x H1 H2. eapply DBc; eauto.
+        - intros x H1 H2. apply in_app_or in H2. destruct H2 as [H2|H2]; [eapply DLB | eapply DLc]; eauto. }
+      assert (Hdj2 : disj bs2 Dk).
+      { intros x Hx Hd. apply minus_In in Hd. destruct Hd as [Hd Hk]. unfold bs2 in Hx. rewrite ELK in Hx.
+        apply in_app_or in Hx. destruct Hx as [Hx|Hx]; [contradiction|]. apply in_app_or in Hd. apply in_app_or in Hx.
+        destruct Hx as [Hx|Hx]; destruct Hd as [Hd|Hd];
+          first [eapply DLB; eauto; fail | eapply DjB; eauto; fail | eapply DLc; eauto; fail | eapply Djc; eauto; fail]. }
+      assert (Hbs2 : incl' bs2 (LN ++ binders_l ss ++ opt_names bc)).
+      { unfold bs2. rewrite ELK. intros x. rewrite !in_app_iff. intros [Hx|[Hx|Hx]]; auto. }
+      assert (HDbs2 : forall x, In x D -> ~ In x bs2).
+      { intros x Hx Hb. apply (Hdj2 x Hb). auto. }
+      split.
+      - assert (Hefd : incl' (efree c D) D) by (intros x Hx; apply efree_In in Hx; apply Hx).
+        destruct (HT2 (efree c D) (tscope_efree c D S0 Hwf HS0) Hefd Dk Wk (incl'_trans _ _ _ Hefd HDk) Hnd2 Hdj2)
+          as [(W4 & X4 & B4 & N4 & _) _].
+        split; [|split; [|split; [|split]]].
+        + eapply cx_wf2_mono; eauto. intros x Hx. apply in_app_or in Hx. destruct Hx as [Hx|Hx].
+          * apply in_or_app. left. auto.
+          * apply minus_In in Hx. destruct Hx as [Hx _]. rewrite !in_app_iff in *. tauto.
+        + eapply ext_trans; [exact X1 | exact X4 | | exact Hbs2]. inc.
+        + eapply incl'_trans; eauto.
+        + assumption.
+        + intros T HT HTD. destruct (HstT T HT HTD) as (HT1o & _).
+          destruct (HT2 T HT HTD Dk Wk (incl'_trans _ _ _ HTD HDk) Hnd2 Hdj2) as [(_ & X4' & _ & _ & S5) _].
+          destruct (S5 T) as [A1 A2].
+          { apply tscope_self; [apply HT1o | apply HT1o]. }
+          { eapply incl'_trans; eauto. }
+          split; [exact A1|]. intros _. specialize (A2 eq_refl).
+          apply (tscope_compose c' c1 (opt_names bc) S0 T _ A2 HT1o); [inc|].
+          intros x Hx. cbn. destruct (X4' x (HDbs2 x (HS0 x Hx))) as [-> _]. reflexivity.
+      - intros S J eo et tr Hi1 Hi2 HiJ HR. specialize (Hst1 S J eo et tr Hi1 Hi2 HiJ HR).
+        destruct (exec_o (SWhile lvs ss bc) eo tr) as [eo' tr'|v0 e0 t0| | | | |] eqn:EW; cbn [dyn]; auto.
+        2:{ exfalso. eapply while_never_break; eauto. }
+        destruct Hst1 as (et' & EW1 & RA). split; [reflexivity|].
+        destruct (tscope_dyn c D S0 S J eo et Hwf Hi1 HR) as [HTd HRd]. set (Sv := efree c (S ++ J)) in *.
+        assert (HSvD : incl' Sv D).
+        { intros x Hx. apply efree_In in Hx. destruct Hx as [Hx _]. apply in_app_or in Hx. destruct Hx; auto. }
+        assert (HSJL : forall x, In x (S ++ J) -> ~ In x LN).
+        { intros x Hx Hl. apply (DjL x Hl). apply in_app_or in Hx. destruct Hx; auto. }
+        destruct (HT2 Sv HTd HSvD Dk Wk (incl'_trans _ _ _ HSvD HDk) Hnd2 Hdj2) as [(_ & X4 & _) Hd2].
+        assert (HRd1 : Rel2 w c1 Sv [] et et).
+        { apply (R2_ext w c c1 Sv [] LN et et HRd X1). intros x Hx. rewrite app_nil_r in Hx. apply efree_In in Hx. apply HSJL, Hx. }
+        specialize (Hd2 et tr HRd1). rewrite EW1 in Hd2. cbn [dynT] in Hd2. destruct Hd2 as (et2 & J' & Ex2 & RB & HJ').
+        exists et2, (opt_names bc ++ S), (J ++ Sv ++ J'). split; [exact Ex2|]. split.
+        + pose proof HwfL as (_ & _ & W3).
+          apply (R2_compose c1 c' S Sv J J' (opt_names bc) eo' et' et2 bs2 RA RB X4).
+          * intros x Hx. apply HDbs2. apply in_app_or in Hx. destruct Hx; auto.
+          * intros x. unfold Sv. rewrite efree_In. split; intros [A B]; split; auto.
+            -- destruct (X1 x (HSJL x A)) as [-> _]. exact B.
+            -- destruct (X1 x (HSJL x A)) as [<- _]. exact B.
+          * intros x Hx. apply (cx_wf_notin_v c1 (LN ++ D) x (cx_wf2_wf _ _ HwfL)). rewrite in_app_iff.
+            intros [Hl|Hd]; [eapply DLc | eapply Djc]; eauto.
+          * intros z op y k E. apply (W3 z op y k E).
+          * intros x y E. eapply opt_idem; eauto.
+          * intros x y Hx E. destruct HR as (_ & RI & _). apply (RI x y Hx). cbn in *.
+            destruct (X1 x (HSJL x (in_or_app _ _ _ (or_introl Hx)))) as [<- _]. exact E.
+        + split; [apply incl'_refl|]. split; [inc|]. split; [inc|].
+          intros x Hx. apply in_app_or in Hx. destruct Hx as [Hx|Hx]; [rewrite !in_app_iff; auto|].
+          apply in_app_or in Hx. destruct Hx as [Hx|Hx].
+          * apply efree_In in Hx. destruct Hx as [Hx _]. rewrite !in_app_iff in *. tauto.
+          * apply HJ' in Hx. apply in_app_or in Hx. destruct Hx as [Hx|Hx].
+            -- apply Hbs2 in Hx. rewrite !in_app_iff in *. tauto.
+            -- apply efree_In in Hx. destruct Hx as [Hx _]. rewrite !in_app_iff in *. tauto. }
+    destruct (match split_last body with
+              | Some (rest, SBreak e) => if v_guard g && negb (no_break_l rest) then None else Some (rest, e)
+              | _ => None end) as [[rest e]|] eqn:Eonce.
+    - (* "the loop runs once" *)
+      assert (Hbody : body = rest ++ [SBreak e] /\ no_break_l rest = true).
+      { pose proof (split_last_spec body) as Hsl. destruct (split_last body) as [[r l]|]; [|discriminate].
+        destruct l; try discriminate. rewrite Hg1 in Eonce. cbn [andb] in Eonce.
+        destruct (no_break_l r) eqn:En; [|discriminate]. injection Eonce as <- <-. auto. }
+      destruct Hbody as [Hbd Hnb].
+      destruct (bind_inits lvs' c1) as [c2|] eqn:Hbi; [|discriminate].
+      destruct (ccp_stmts g n rest c2) as [[[[o c3] b3] f2]|] eqn:Hccp; [|discriminate].
+      assert (Hfl : fst f1 = false /\ fst f2 = false /\ brk = false /\ o = out /\
+                    match bc with Some b => bind b (opt_expr (cx_v c3) e) c3 = Some c' | None => c' = c3 end).
+      { destruct bc as [b|]; [destruct (bind b _ c3) as [c4|] eqn:Ebd; [|discriminate]|];
+          injection H as <- <- <- <-; apply orf_false in Hf; destruct Hf as [Hf _];
+          apply orf_false in Hf; destruct Hf as [_ Hf]; apply orf_false in Hf; destruct Hf as [A B]; auto. }
+      destruct Hfl as (Hf1 & Hf2 & Hbrk & -> & Hbc).
+      apply (Hcomp Hf1 Hbrk). intros D Tst Hwf HS0 Hnd Hdj HT HTD.
+      destruct (while_stage1 n lvs ss bc c K c1 f0 _ c_in bb f1 S0 D HQ Ee Eb Hf1 Hsc Hwf HS0 Hnd Hdj)
+        as (HwfL & X1 & Ebc & Bb & Nb & ELK & HLK & HndK & HstT & _).
+      fold lvs' in ELK, HstT. destruct (HstT Tst HT HTD) as (HT1o & Hini & Hscb & _).
+      apply good_tgood. unfold bs2. rewrite Hbd in *. rewrite binders_l_app. cbn [binders_l binders]. rewrite app_nil_r.
+      apply (once_good n lvs' rest e bc c1 c2 out c3 b3 f2 c' Tst HQ Hnb Hini); auto.
+      intros t y Ht Ey. apply in_map_iff in Ht. destruct Ht as [t0 [<- Ht0]]. cbn in Ey.
+      eapply opt_expr_idem; eauto.
+    - (* the loop is kept, or its first iterations are evaluated *)
+      destruct (try_loop g (ccp_stmts g n) 5 lvs' body bc c1) as [[[[o c2] b2] f2]|] eqn:Et; [|discriminate].
+      injection H as <- <- <- <-. apply orf_false in Hf. destruct Hf as [Hf Hfi].
+      apply orf_false in Hf. destruct Hf as [Hf Hf2]. apply orf_false in Hf. destruct Hf as [_ Hf1].
+      assert (Hdead : ends_break body = false \/ lvs' = []).
+      { unfold dead_loop_values in Hfi. revert Hfi. destruct (ends_break body); [|auto]. destruct lvs'; [auto|]. intros Hx. discriminate Hx. }
+      apply (Hcomp Hf1 (try_loop_brk _ _ _ _ _ _ _ _ _ _ Et)). intros D Tst Hwf HS0 Hnd Hdj HT HTD.
+      destruct (while_stage1 n lvs ss bc c K c1 f0 _ c_in bb f1 S0 D HQ Ee Eb Hf1 Hsc Hwf HS0 Hnd Hdj)
+        as (HwfL & X1 & Ebc & Bb & Nb & ELK & HLK & HndK & HstT & _).
+      fold lvs' in ELK, HstT. destruct (HstT Tst HT HTD) as (HT1o & Hini & Hscb & Hlv).
+      apply (tl_tgood n bc c1 Tst body HQ (proj1 (proj2 HT1o)) (proj2 (proj2 HT1o)) 5 lvs' o c2 b2 f2 Et Hf2).
+      rewrite scoped_SWhile, Hscb, andb_true_r. apply andb_true_intro. split.
+      + rewrite forallb_forall. exact Hini.
+      + destruct Hdead as [Hd| ->]; [rewrite forallb_forall; exact (Hlv Hd) | reflexivity].
+  Qed.
+  (* ---------------------------------------------------------------- all statements *)
+  Lemma P_step n : Qn n -> Pn (S n).
+  Proof.
+    intros HQ st c out c' brk f S0 H Hf Hsc. destruct st as [x op e1 e2|x e|x p e|fn args ret|cnd s1 s2 fas|cnd inv ss|e|lvs ss bc].
+    - exact (P_SBin n x op e1 e2 c out c' brk f S0 H Hsc).
+    - exact (P_SNot n x e c out c' brk f S0 H Hsc).
+    - exact (P_SPrim n x p e c out c' brk f S0 H Hsc).
+    - exact (P_SCall n fn args ret c out c' brk f S0 H Hsc).
+    - cbn [ccp_stmt] in H. fold (ccp_stmts g n) in H. cbn [defs].
+      destruct (lit (opt_expr (cx_v c) cnd)) as [v|] eqn:L.
+      + eapply P_SIf_const; eauto.
+      + assert (GEN :
+          match ccp_stmts g n s1 c with
+          | None => None
+          | Some (o1, c1, _, f1) =>
+              match ccp_stmts g n s2 c with
+              | None => None
+              | Some (o2, c2, _, f2) =>
+                  match merge_fas fas (map (fun t => opt_expr (cx_v c1) (t_e1 t)) fas)
+                                  (map (fun t => opt_expr (cx_v c2) (t_e2 t)) fas) c with
+                  | None => None
+                  | Some (fas', c'0) =>
+                      Some (if is_nil o1 && is_nil o2 && is_nil fas' then []
+                            else [SIf (opt_expr (cx_v c) cnd) o1 o2 fas'], c'0, false,
+                            orf (orf f1 f2) (if (ends_break o1 || ends_break o2) && negb (is_nil fas) then fl_unproved else fl0))
+                  end
+              end
+          end = Some (out, c', brk, f) ->
+          good (binders (SIf cnd s1 s2 fas)) (map t_name fas) (exec_o (SIf cnd s1 s2 fas)) S0 c out c' brk).
+        { intros HG. destruct (ccp_stmts g n s1 c) as [[[[o1 c1] b1] f1]|] eqn:E1; [|discriminate].
+          destruct (ccp_stmts g n s2 c) as [[[[o2 c2] b2] f2]|] eqn:E2; [|discriminate].
+          destruct (merge_fas fas _ _ c) as [[fas' c0]|] eqn:Hm; [|discriminate].
+          injection HG as <- <- <- <-. apply orf_false in Hf. destruct Hf as [Hf Hfd].
+          apply orf_false in Hf. destruct Hf as [Hf1 Hf2].
+          eapply P_SIf_generic; eauto.
+          destruct ((ends_break o1 || ends_break o2) && negb (is_nil fas)); [discriminate Hfd | reflexivity]. }
+        destruct s1 as [|a1 r1]; [|apply GEN; exact H].
+        destruct s2 as [|a2 r2]; [|apply GEN; exact H].
+        destruct fas as [|t [|t2 r]]; [apply GEN; exact H| |apply GEN; exact H].
+        destruct (SIf_scoped_parts _ _ _ _ _ Hsc) as (Hc & _).
+        destruct (is_lit (t_e1 t) 1 && is_lit (t_e2 t) 0) eqn:L10.
+        * destruct (bind (t_name t) _ c) as [cb|] eqn:B; [|discriminate]. injection H as <- <- <- <-.
+          exact (P_SIf_10 cnd t c cb S0 L10 B Hc).
+        * destruct (is_lit (t_e1 t) 0 && is_lit (t_e2 t) 1) eqn:L01.
+          -- injection H as <- <- <- <-. exact (P_SIf_01 cnd t c S0 L01 Hc).
+          -- apply GEN; exact H.
+    - exact (P_SSIf n cnd inv ss c out c' brk f S0 HQ H Hf Hsc).
+    - exact (P_SBreak n e c out c' brk f S0 H Hsc).
+    - exact (P_SWhile n lvs ss bc c out c' brk f S0 HQ H Hf Hsc).
+  Qed.
+
+  Theorem ccp_all n : Pn n /\ Qn n.
+  Proof.
+    induction n as [|n [IHP IHQ]].
+    - assert (P0 : Pn 0) by (intros st c out c' brk f S0 H; discriminate). split; [exact P0 | apply Q_of_P; exact P0].
+    - pose proof (P_step n IHQ) as HP. split; [exact HP | apply Q_of_P; exact HP].
+  Qed.
 End Full.
+
+(* the pass as it is now (ccp = ccp_gen ver_now): every run of a well-formed function that does not overflow in
+   + and - is reproduced by the output, which does not overflow there either; the output is again well scoped
+   with pairwise distinct binders, so the next round can rely on the same theorem.  `fst fl = false` excludes
+   only the two situations in which the pass leaves a dangling operand in dead code (see Passes.fl). *)
+Theorem ccp_preserves_add w f f' fl :
+  wf_func f = true -> ccp f = Some (f', fl) -> fst fl = false -> refines_add w f' f.
+Proof.
+  unfold wf_func, ccp, ccp_gen. intros Hwf H Hfl. apply andb_prop in Hwf. destruct Hwf as [Hwf Hret].
+  apply andb_prop in Hwf. destruct Hwf as [Hnd Hsc]. apply nodupb_NoDup in Hnd.
+  destruct (ccp_stmts ver_now ccp_fuel (f_body f) cx0) as [[[[out c] b] f1]|] eqn:E; [|discriminate].
+  injection H as <- <-.
+  intros args fuel v tr Hsem.
+  destruct (ccp_all w fuel ver_now eq_refl eq_refl ccp_fuel) as [_ HQ].
+  specialize (HQ (f_body f) cx0 out c b f1 (f_params f) E Hfl Hsc (f_params f) (cx_wf2_init _) (incl'_refl _)).
+  destruct HQ as [_ Hd].
+  - eapply NoDup_app_r'; eauto.
+  - intros x Hb Hp. eapply (NoDup_app_disj' _ _ x Hnd); eauto.
+  - specialize (Hd (f_params f) [] (init_env f args) (init_env f args) [] (incl'_refl _) (incl'_refl _) (fun x (H : In x []) => match H with end) (R2_init _ _ _)).
+    unfold sem in *. cbn [f_body f_params f_ret].
+    change (init_env {| f_params := f_params f; f_body := out; f_ret := opt_expr (cx_v c) (f_ret f) |} args)
+      with (init_env f args).
+    destruct (exec_block Add w fuel (f_body f) (init_env f args) []) as [eo' tr'| | | | | |]; try discriminate.
+    injection Hsem as <- <-. cbn [dyn] in Hd. destruct Hd as (_ & et' & S' & J' & Ex & HR & Lo & _).
+    rewrite Ex. f_equal. symmetry. apply (R2_expr w c S' J' eo' et' (f_ret f) HR).
+    intros x Ex'. apply Lo. apply in_scope_var. rewrite <- Ex'. exact Hret.
+Qed.
+
+Corollary ccp_preserves w f f' fl :
+  wf_func f = true -> ccp f = Some (f', fl) -> fst fl = false -> refines w f' f.
+Proof. intros H1 H2 H3. apply refines_add_refines. exact (ccp_preserves_add w f f' fl H1 H2 H3). Qed.
+
+(* the same with the exclusion as a named decidable hypothesis on f (Passes.dead_final_operands) *)
+Lemma no_dead_flag f f' fl : no_dead_final_operands f -> ccp f = Some (f', fl) -> fst fl = false.
+Proof. unfold no_dead_final_operands, dead_final_operands. intros H E. rewrite E in H. exact H. Qed.
+Theorem ccp_preserves_add_named w f f' fl :
+  wf_func f = true -> no_dead_final_operands f -> ccp f = Some (f', fl) -> refines_add w f' f.
+Proof. intros H1 H2 H3. exact (ccp_preserves_add w f f' fl H1 H3 (no_dead_flag f f' fl H2 H3)). Qed.
+Theorem ccp_preserves_named w f f' fl :
+  wf_func f = true -> no_dead_final_operands f -> ccp f = Some (f', fl) -> refines w f' f.
+Proof. intros H1 H2 H3. exact (ccp_preserves w f f' fl H1 H3 (no_dead_flag f f' fl H2 H3)). Qed.
+
+Lemma NoDup_nodupb l : NoDup l -> nodupb l = true.
+Proof.
+  induction 1 as [|x l Hn Hnd IH]; cbn; [reflexivity|]. rewrite IH, andb_true_r. apply negb_true_iff.
+  destruct (memb x l) eqn:E; [|reflexivity]. apply memb_In in E. contradiction.
+Qed.
+
+(* the output of the pass is well formed again (a function body has no Break outside of a loop) *)
+Theorem ccp_wf f f' fl :
+  wf_func f = true -> no_break_l (f_body f) = true -> ccp f = Some (f', fl) -> fst fl = false -> wf_func f' = true.
+Proof.
+  unfold wf_func at 1, ccp, ccp_gen. intros Hwf Hnb H Hfl. apply andb_prop in Hwf. destruct Hwf as [Hwf Hret].
+  apply andb_prop in Hwf. destruct Hwf as [Hnd Hsc]. apply nodupb_NoDup in Hnd.
+  destruct (ccp_stmts ver_now ccp_fuel (f_body f) cx0) as [[[[out c] b] f1]|] eqn:E; [|discriminate].
+  injection H as <- <-.
+  destruct (ccp_all (mkworld (fun _ _ _ => None) (fun _ => 0%Z) (fun _ => 0%Z) (fun _ v => v)) 0 ver_now eq_refl eq_refl ccp_fuel) as [_ HQ].
+  specialize (HQ (f_body f) cx0 out c b f1 (f_params f) E Hfl Hsc (f_params f) (cx_wf2_init _) (incl'_refl _)).
+  destruct HQ as [(W & X & B & N & S5) _].
+  - eapply NoDup_app_r'; eauto.
+  - intros x Hb Hp. eapply (NoDup_app_disj' _ _ x Hnd); eauto.
+  - assert (HT0 : tscope cx0 (f_params f) (f_params f)).
+    { apply tscope_self; intros; [reflexivity | discriminate]. }
+    destruct (S5 (f_params f) HT0 (incl'_refl _)) as [A1 A2].
+    unfold wf_func. cbn [f_params f_body f_ret]. rewrite A1, andb_true_r. apply andb_true_intro. split.
+    + apply NoDup_nodupb. apply NoDup_app_intro; [eapply NoDup_app_l'; eauto | exact N |].
+      intros x Hp Hb. apply B in Hb. eapply (NoDup_app_disj' _ _ x Hnd); eauto.
+    + assert (b = false) as -> by (eapply (ccps_nobreak ver_now); eauto).
+      specialize (A2 eq_refl). eapply tscope_expr; eauto.
+Qed.
+Theorem ccp_wf_named f f' fl :
+  wf_func f = true -> no_break_l (f_body f) = true -> no_dead_final_operands f -> ccp f = Some (f', fl) -> wf_func f' = true.
+Proof. intros H1 H2 H3 H4. exact (ccp_wf f f' fl H1 H2 H4 (no_dead_flag f f' fl H3 H4)). Qed.
